@@ -34,6 +34,12 @@ type guardRule struct {
 
 func (x *Exec) loadDirectives() {
 	x.loadSumRules()
+	// identity-level concatenation facts are produced only when some contract speaks of concatid
+	for _, sf := range x.C.Specs {
+		if strings.Contains(sf.Src, "concatid(") {
+			x.concatAxioms()
+		}
+	}
 	for _, d := range x.C.Directives {
 		switch d.Kind {
 		case "lock":
